@@ -23,7 +23,7 @@ ASSUMPTIONS = ['process spawning and file-descriptor inheritance by subprocess.c
                'captured files; valjean flushes its own echo line before each spawn)',
                'scripted commands are deterministic']
 
-NAMES = ['task', 'my task', 'tâche-é', 'a.b', '..x', 'x/y', '/abs', 'nul\x00char', '.', '..', 'a' * 40, 'T', ' lead', 'x\ny']
+NAMES = ['', 'task', 'my task', 'tâche-é', 'a.b', '..x', 'x/y', '/abs', 'nul\x00char', '.', '..', 'a' * 40, 'T', ' lead', 'x\ny']
 TOKENS = ['out', 'E', 'spam and eggs', 'x' * 50, '', 'ü', 'line1\\nline2', '%%']
 
 
@@ -182,7 +182,7 @@ def oracle(case, impl, run):
             continue
         clis = spec['clis']
         name = spec['name']
-        bad_name = '\x00' in name or '/' in name or name in ('.', '..')
+        bad_name = '\x00' in name or '/' in name or name in ('', '.', '..')
         # commands that are actually run: up to and including the first one that does not exit with 0
         ran = []
         spawn_error = False
